@@ -9,12 +9,18 @@ steps: worktree of /repo HEAD -> demo passes on clean tree -> apply patch -> bas
 import json, os, shutil, subprocess, sys, tempfile
 
 ID, var, patch, demo, checks = sys.argv[1:6]
+CHECKS_ONLY = len(sys.argv) > 6 and sys.argv[6] == "--checks-only"     # keep the recorded worktree validation, re-run the checks only
 checks = [c for c in checks.split(",") if c]
 out = f"/verif/seeded/{ID}_{var}"
 os.makedirs(out, exist_ok=True)
 meta = {"property": ID, "variant": var, "source": f"independent sub-agent, given only the property text and a scratch worktree", "ran": []}
 wt = tempfile.mkdtemp(prefix=f"seedwt_{ID}_{var}_", dir="/tmp")
 os.rmdir(wt)
+_prev = None
+if CHECKS_ONLY and os.path.exists(f"{out}/meta.json"):
+    _prev = json.load(open(f"{out}/meta.json"))
+    if not (_prev.get("confirmed") and os.path.exists(f"{out}/patch.diff") and open(f"{out}/patch.diff").read() == open(patch).read()):
+        _prev = None
 
 
 def sh(cmd, **kw):
@@ -23,26 +29,34 @@ def sh(cmd, **kw):
     return r
 
 
-try:
-    sh(f"git -C /repo worktree add -q --detach {wt} HEAD")
-    shutil.copy("/repo/src/codemodder/_version.py", f"{wt}/src/codemodder/_version.py")
-    env = f"PYTHONPATH={wt}/src PYTHONDONTWRITEBYTECODE=1"
-    runner = "/venv/bin/python -m pytest -q -p no:cacheprovider" if os.path.basename(demo).startswith("demo_test") or "test" in os.path.basename(demo) else "/venv/bin/python"
-    r0 = sh(f"cd {wt} && {env} timeout 600 {runner} {demo}")
-    meta["demo_clean_exit"] = r0.returncode
-    ap = sh(f"git -C {wt} apply {patch}")
-    meta["patch_applies"] = ap.returncode == 0
-    if ap.returncode == 0:
-        b = sh(f"python3 /verif/tools/baseline_check.py {wt}")
-        meta["baseline"] = b.stdout.strip().splitlines()[0] if b.stdout.strip() else b.stderr[-200:]
-        meta["baseline_ok"] = b.returncode == 0
-        r1 = sh(f"cd {wt} && {env} timeout 600 {runner} {demo}")
-        meta["demo_patched_exit"] = r1.returncode
-        meta["demo_patched_tail"] = (r1.stdout + r1.stderr)[-600:]
-    meta["confirmed"] = bool(meta.get("patch_applies") and meta.get("baseline_ok") and meta.get("demo_clean_exit") == 0 and meta.get("demo_patched_exit", 0) != 0)
-finally:
-    sh(f"git -C /repo worktree remove --force {wt}")
-    shutil.rmtree(wt, ignore_errors=True)
+if _prev is not None:
+    for k in ("ran", "demo_clean_exit", "patch_applies", "baseline", "baseline_ok", "demo_patched_exit", "demo_patched_tail", "confirmed"):
+        if k in _prev:
+            meta[k] = _prev[k]
+    meta["validated_at_repo_commit"] = _prev.get("validated_at_repo_commit", "an earlier HEAD of this session (same patch text)")
+    meta["patch_applies"] = subprocess.run(f"git -C /repo apply --check {patch}", shell=True).returncode == 0
+else:
+  meta["validated_at_repo_commit"] = subprocess.run("git -C /repo rev-parse --short HEAD", shell=True, capture_output=True, text=True).stdout.strip()
+  try:
+      sh(f"git -C /repo worktree add -q --detach {wt} HEAD")
+      shutil.copy("/repo/src/codemodder/_version.py", f"{wt}/src/codemodder/_version.py")
+      env = f"PYTHONPATH={wt}/src PYTHONDONTWRITEBYTECODE=1"
+      runner = "/venv/bin/python -m pytest -q -p no:cacheprovider" if os.path.basename(demo).startswith("demo_test") or "test" in os.path.basename(demo) else "/venv/bin/python"
+      r0 = sh(f"cd {wt} && {env} timeout 600 {runner} {demo}")
+      meta["demo_clean_exit"] = r0.returncode
+      ap = sh(f"git -C {wt} apply {patch}")
+      meta["patch_applies"] = ap.returncode == 0
+      if ap.returncode == 0:
+          b = sh(f"python3 /verif/tools/baseline_check.py {wt}")
+          meta["baseline"] = b.stdout.strip().splitlines()[0] if b.stdout.strip() else b.stderr[-200:]
+          meta["baseline_ok"] = b.returncode == 0
+          r1 = sh(f"cd {wt} && {env} timeout 600 {runner} {demo}")
+          meta["demo_patched_exit"] = r1.returncode
+          meta["demo_patched_tail"] = (r1.stdout + r1.stderr)[-600:]
+      meta["confirmed"] = bool(meta.get("patch_applies") and meta.get("baseline_ok") and meta.get("demo_clean_exit") == 0 and meta.get("demo_patched_exit", 0) != 0)
+  finally:
+      sh(f"git -C /repo worktree remove --force {wt}")
+      shutil.rmtree(wt, ignore_errors=True)
 
 # run the checks against /repo with the patch applied, then undo
 meta["checks"] = {}
